@@ -135,9 +135,18 @@ func extractHasVals(h *gripql.GraphStatement_Has) []string {
 				vals = []string{l}
 			}
 		case gripql.Condition_WITHIN:
-			v := val.([]interface{})
+			// only a list of strings can be turned into an id/label lookup; anything else is
+			// left to the has filter (which matches nothing for a non-list)
+			v, ok := val.([]interface{})
+			if !ok {
+				return []string{}
+			}
 			for _, x := range v {
-				vals = append(vals, x.(string))
+				s, ok := x.(string)
+				if !ok {
+					return []string{}
+				}
+				vals = append(vals, s)
 			}
 		default:
 			// do nothing
